@@ -220,6 +220,11 @@ def handler (prop : String) (wrong : Bool) : Handler DState where
       | .none => (st, .bad "op before new")
       | .dead => (st, .ok)
       | .live s =>
+        -- optional last token `@L`: the link on whose behalf the signal is sent
+        let behalf : Option Nat := match op.getLast? with
+          | some t => if t.startsWith "@" then (t.drop 1).toString.toNat? else none
+          | none => none
+        let op := if behalf.isSome then op.dropLast else op
         match parseOp op with
         | none => (st, .bad "unparsable op")
         | some o =>
@@ -233,7 +238,7 @@ def handler (prop : String) (wrong : Bool) : Handler DState where
             let implPanic := res.startsWith "PANIC"
             let stepped := step { s with oracle := choices, ghost := [] } o
             let ghosts := match stepped with | .ok (s', _) => s'.ghost | .error _ => []
-            let (mon, mv) := Monitors.observe st.prop st.mon o obs ghosts
+            let (mon, mv) := Monitors.observe st.prop st.mon o obs ghosts behalf
             let st := { st with mon := mon }
             match stepped with
             | .error (.panic msg) =>
